@@ -336,6 +336,91 @@ func nb(n int) string {
 	}
 }
 
+// ---- (b2) one out-of-range command inside a stream: reported, never dropped ----
+
+type badStreamCase struct {
+	Uplink bool      `json:"uplink"`
+	Where  string    `json:"where"`
+	Cmds   []ref.Cmd `json:"cmds"`
+	BadAt  int       `json:"bad_at"`
+	Bad    valCase   `json:"bad"`
+}
+
+func genBadStream(t *rapid.T) badStreamCase {
+	c := badStreamCase{Uplink: rapid.Bool().Draw(t, "uplink"), Where: rapid.SampledFrom([]string{"fopts", "port0"}).Draw(t, "where")}
+	n := rapid.IntRange(0, 8).Draw(t, "bytes")
+	c.Cmds = gen.Cmds(t, "cmds", c.Uplink, n)
+	c.BadAt = rapid.IntRange(0, len(c.Cmds)).Draw(t, "badat")
+	// a payload of this direction with exactly one field outside its range
+	var specs []*ref.Spec
+	for i := range ref.Specs {
+		s := &ref.Specs[i]
+		if s.Uplink != c.Uplink {
+			continue
+		}
+		for _, f := range s.Fields {
+			if _, hi := f.Range(); f.Kind == ref.KBits && f.Width < 8 && hi < 255 {
+				specs = append(specs, s)
+				break
+			}
+		}
+	}
+	s := specs[rapid.IntRange(0, len(specs)-1).Draw(t, "badspec")]
+	v := gen.SpecVals(t, s)
+	var cand []ref.Field
+	for _, f := range s.Fields {
+		if f.Kind == ref.KBits && f.Width < 8 {
+			cand = append(cand, f)
+		}
+	}
+	f := cand[rapid.IntRange(0, len(cand)-1).Draw(t, "badfield")]
+	_, hi := f.Range()
+	v[f.Name] = int64(rapid.IntRange(int(hi)+1, 255).Draw(t, "badval"))
+	c.Bad = valCase{Name: s.Name, Vals: v}
+	return c
+}
+
+func checkBadStream(c badStreamCase) evid.Outcome {
+	lorawan.VerifResetMACPayloadRegistry()
+	s := ref.SpecByName(c.Bad.Name)
+	if s == nil || s.Uplink != c.Uplink || c.BadAt < 0 || c.BadAt > len(c.Cmds) {
+		return evid.Outcome{Skip: true}
+	}
+	bp := gen.NewPayload[s.Name]()
+	if !gen.Fill(bp, c.Bad.Vals) {
+		return evid.Outcome{Skip: true}
+	}
+	if _, err := bp.MarshalBinary(); err == nil {
+		return evid.Outcome{Skip: true} // the encoder accepts this value (its own lossless-or-error check is values-full-domain)
+	}
+	pls := gen.LibCmds(c.Uplink, c.Cmds)
+	bad := &lorawan.MACCommand{CID: lorawan.CID(s.CID), Payload: bp}
+	pls = append(pls[:c.BadAt:c.BadAt], append([]lorawan.Payload{bad}, pls[c.BadAt:]...)...)
+	m := &lorawan.MACPayload{FHDR: lorawan.FHDR{DevAddr: lorawan.DevAddr{1, 2, 3, 4}, FCnt: 1}}
+	if c.Where == "fopts" {
+		m.FHDR.FOpts = pls
+	} else {
+		zero := uint8(0)
+		m.FPort, m.FRMPayload = &zero, pls
+	}
+	mt := lorawan.UnconfirmedDataDown
+	if c.Uplink {
+		mt = lorawan.UnconfirmedDataUp
+	}
+	p := lorawan.PHYPayload{MHDR: lorawan.MHDR{MType: mt}, MACPayload: m}
+	b, err := p.MarshalBinary()
+	if err == nil {
+		return evid.Fail("a frame whose %s carries %d commands, the %s at position %d with out-of-range fields %v (its own encoder refuses it), encodes without error to %x: the command was silently dropped or truncated", c.Where, len(pls), s.Name, c.BadAt, c.Bad.Vals, b)
+	}
+	var key lorawan.AES128Key
+	if c.Where == "port0" {
+		if err := p.EncryptFRMPayload(key); err == nil {
+			return evid.Fail("EncryptFRMPayload of a port-0 payload with an unencodable %s at position %d of %d reports success", s.Name, c.BadAt, len(pls))
+		}
+	}
+	return evid.Outcome{NonTrivial: len(pls) >= 2 && c.BadAt < len(pls)-1, Class: fmt.Sprintf("%s/bad-last=%v", c.Where, c.BadAt == len(pls)-1)}
+}
+
 // ---- (c) proprietary registration histories ----
 
 type op struct {
@@ -496,6 +581,10 @@ func TestProp(t *testing.T) {
 	evid.Rapid(r, t, "streams",
 		"rapid: command sequences per direction built to a drawn byte budget (FOpts <= 15, port 0 <= 242; a quarter exactly at the limit), including payload-less CIDs and up to 3 CIDs unknown in that direction; each command encodes to 1 + registered size; the concatenation equals the model framing and decodes (DecodeFOptsToMACCommands / DecodeFRMPayloadToMACCommands) to exactly the sequence. Non-trivial: >= 3 commands.",
 		50000, 3000000, genStream, checkStream)
+
+	evid.Rapid(r, t, "streams-with-unencodable-command",
+		"rapid: a frame (FOpts or port 0) carrying 0..8 bytes of valid commands plus, at a drawn position, one command with a field outside its range (its own encoder refuses it): PHYPayload.MarshalBinary (and EncryptFRMPayload for port 0) must report an error - never encode the frame with that command dropped or truncated. Non-trivial: the bad command is not the last of >= 2.",
+		40000, 1500000, genBadStream, checkBadStream)
 
 	evid.Rapid(r, t, "proprietary-histories",
 		"rapid histories (registry reset by the verif hook at the start of every case): register(uplink, CID 0..255, size 0..20) / lookup / encode+decode a stream mixing standard and proprietary commands, against a model map: CID < 0x80 refused, size 0 a no-op, re-registration overrides, a registration frames the CID in its direction only. Non-trivial: >= 2 effective registrations followed by a stream decode.",
